@@ -101,7 +101,7 @@ impl Part for Vocabulary {
     }
     fn cases(&self, tier: Tier) -> usize {
         match tier {
-            Tier::Quick => 24_000,
+            Tier::Quick => 72_000,
             Tier::Thorough => 1_200_000,
         }
     }
@@ -159,8 +159,8 @@ impl E2Part for NoStd {
     }
     fn cases(&self, tier: Tier) -> usize {
         match (tier, self.which) {
-            (Tier::Quick, "structs") | (Tier::Quick, "enums") => 900,
-            (Tier::Quick, _) => 450,
+            (Tier::Quick, "structs") | (Tier::Quick, "enums") => 1_800,
+            (Tier::Quick, _) => 900,
             (Tier::Thorough, "structs") | (Tier::Thorough, "enums") => 16_000,
             (Tier::Thorough, _) => 8_000,
         }
